@@ -12,6 +12,7 @@ import numpy
 from lib import Case, fbits
 from tape import TapeExhausted, TapeMismatch
 from deap import creator, tools
+from props import c09_hist as HS
 
 ANCHORS = [("deap/tools/crossover.py", ["cxOnePoint", "cxTwoPoint", "cxTwoPoints", "cxESTwoPoints", "cxUniform", "cxPartialyMatched",
                                         "cxUniformPartialyMatched", "cxOrdered", "cxMessyOnePoint",
@@ -32,6 +33,12 @@ RULE = ("exhaustive (forced value tape): PMX = all permutation pairs of 0..n-1 (
         "model under both slice disciplines (`C09 buf ...`: copy = list/array, view = numpy) - slice crossovers on all length "
         "pairs 0..4 x all cuts (numpy: gene loss, ValueError, one-item broadcast, contents after the exception), inversion "
         "n<=5 x all index pairs, 120 random cases per operator. "
+        "History stream (right after the long permutations): 2-6 events in ONE process on objects the caller keeps - fixed skeletons "
+        "first (PMX/UPMX/OX: aborted call on a tour numbered 1..n or with a label >= size, then two valid calls, n = 2..7; "
+        "mutUniformInt: per-gene bound lists moved far away in place between two calls, n = 1..6), then 70 (thorough 600) random "
+        "histories per family {bounds, abort, reuse, mixed} x backing {list, list, array('q'), numpy}: individuals, low/up lists "
+        "and strategies reused and overwritten in place (slice and item stores), calls the operator rejects in between "
+        "(IndexError / ValueError caught), every operator of the statement; one `C09 hist ...` line per history. "
         "Non-trivial = the draws make the operator change at least one argument")
 EXHAUSTIVE = {"quick": False, "thorough": False}
 TIME_BUDGET = {"quick": 60, "thorough": 900}
@@ -48,7 +55,11 @@ TRUSTED = ["CPython list/array.array item and slice assignment and tuple-assignm
            "in place / identity (returned objects ARE the arguments, strategy objects are kept, no name is rebound to a "
            "copy) is established on the real objects by `is` on every explored case; the Lean statements in_place1/2/_es "
            "only fix the model's convention and hold for any operator"]
-ASSUMPTIONS = ["the two parents are different objects; ES strategies are as long as their individuals",
+ASSUMPTIONS = ["in a history every call is judged on the contents its arguments (individuals AND bound lists) have when it is made; a "
+               "call on arguments outside the hypotheses (labels out of range, bounds too short or crossed, individuals shorter than 2 "
+               "for the cut-point crossovers, slice crossovers on numpy) is only compared with the model, exception and partial "
+               "state included; bound objects of mutUniformInt that the caller edits are plain lists",
+               "the two parents are different objects; ES strategies are as long as their individuals",
                "permutation operators get two permutations of 0..n-1 of the same length",
                "the statement is judged (oracle) on list- and array.array-backed individuals for every operator and on numpy-backed "
                "ones for the element-wise operators (cxUniform, PMX, UPMX, OX, shuffle, bit flip, uniform int) only, as its quantifier "
@@ -66,6 +77,13 @@ EXPLANATION = ("Representation is explicit: Core/Buffer.lean models sequence obj
                "(elementwise_repr_independent, *_any_backing), mutInversion is the same under both (inversion_repr_independent), the "
                "slice-swapping crossovers under view leave parent 2 unchanged and lose parent 1's segment (twopoint/onepoint/es_view_exact, "
                "twopoint_view_conserves_iff, slice_swap_view_loses_genes). "
+               "Histories: OpHistory (Core/CrossMutBuf.lean) is a process whose state is the heaps of the caller's objects only; "
+               "op_result_history_independent says that after any history - completed calls, calls aborted by an exception midway, the "
+               "caller editing individuals and bound lists in place - a call that meets the hypotheses now leaves the list model's "
+               "result on the current contents (bounds of mutUniformInt are objects read at call time). The history stream holds the "
+               "real library against that machine event by event and judges every valid call by the statement against its own "
+               "arguments at call time, so state a module keeps between calls (memoised bounds, markers dirtied by an aborted call) "
+               "shows up as a failing history. "
                "Theorems C09.* hold for all gene lists, all lengths and all draws inside the ranges of the random functions; "
                "Core/CrossMut.lean is tied to deap.tools by replaying forced and recorded value tapes of the real operators "
                "(the tape is kind-agnostic: randint(a,b), randrange(a,b+1), choice(range) and the elements of sample() are "
@@ -387,7 +405,10 @@ def evaluate(d):
     try:
         with warnings.catch_warnings():
             warnings.simplefilter("ignore")          # the former names emit a FutureWarning
-            c = _evaluate_buf(d) if d.get("stream") == "buf" else _evaluate(d)
+            if d.get("stream") == "hist":
+                c = HS.evaluate(d)
+            else:
+                c = _evaluate_buf(d) if d.get("stream") == "buf" else _evaluate(d)
         t = _last_tape[0]
         if t is not None and t.unreplayable and c.oracle is None:
             return Case(d, [], [], oracle="TAPE: code called random.%s, which the model cannot replay" % t.unreplayable,
@@ -982,6 +1003,11 @@ def generate(tier, rng, mult):
     # long permutations first (a clause of their own: tables must hold every index), every run
     for d in big_perm_cases(rng, 3 if tier == "quick" else 12):
         yield d
+    # histories: 2-6 calls in one process on objects the caller reuses and edits in place, aborted calls in between
+    # (every valid call judged by the statement against its own arguments at call time; the whole history replayed on
+    # the machine OpHistory)
+    for d in HS.cases(tier, rng, mult):
+        yield d
     # every operator on list, array.array and numpy.ndarray individuals against the buffer model (both disciplines)
     for d in buf_cases(tier, rng, mult):
         yield d
@@ -1031,6 +1057,10 @@ def focus_generate(tier, rng, descs):
 
 
 def shrink(d):
+    if d.get("stream") == "hist":
+        for e in HS.shrink(d):
+            yield e
+        return
     # 1. a recorded tape becomes a forced one (same draws), so that the replay names every draw
     if "tapeseed" in d:
         try:
@@ -1079,6 +1109,9 @@ def _run(d):
                                 mk_bound(d.get("upkind", "scalar"), d["up"]), d["indpb"])
         else:
             tools.mutInversion(ind)
+
+
+HS.H = __import__("sys").modules[__name__]
 
 
 def classify(desc, msg, known):
